@@ -1,38 +1,264 @@
 import Props.Defs
-namespace Coma.Proofs
+import Proofs.Conflict_Shape
+namespace Coma.Proofs.Conflict
 open Coma Coma.Spec
+
+theorem eq_ok_of_toOption {ε α} {e : Except ε α} {a : α} (h : e.toOption = some a) : e = .ok a := by
+  cases e with
+  | error _ => cases h
+  | ok v => cases h; rfl
+
+/-! ### `endOverlapsWithStartOf` -/
+
+theorem endOverlaps_ok {L R : Seg} {ss se os oe : SP} (hss : L.startPos = .ok ss)
+    (hse : L.endPos = .ok se) (hos : R.startPos = .ok os) (hoe : R.endPos = .ok oe) :
+    ∃ ov, L.endOverlapsWithStartOf R = .ok ov := by
+  unfold Seg.endOverlapsWithStartOf
+  simp only [bind, Except.bind, pure, Except.pure, hss, hse, hos, hoe]
+  split
+  · exact ⟨_, rfl⟩
+  · split
+    · exact ⟨_, rfl⟩
+    · split
+      · exact ⟨_, rfl⟩
+      · exact ⟨_, rfl⟩
+
+/-- no overlap reported: the right start is not `≤` the left end on any map -/
+theorem noOverlap_leqAny {L R : Seg} {se os : SP} (hne : L.items ≠ [])
+    (h : L.endOverlapsWithStartOf R = .ok false)
+    (hse : L.endPos = .ok se) (hos : R.startPos = .ok os) : os.leqAny se = false := by
+  unfold Seg.endOverlapsWithStartOf at h
+  simp only [bind, Except.bind, pure, Except.pure, hse, hos] at h
+  rw [if_neg (by simpa using hne)] at h
+  split at h
+  · cases h
+  · split at h
+    · cases h
+    · split at h
+      · cases h
+      · rename_i hx
+        simpa using hx
+
+/-! ### order facts used for separation -/
+
+theorem strict_of_not_leqAny {L R : Seg} (hS : StrictCoords L R) {e s : Pr} (he : e ∈ L.pairs)
+    (hs : s ∈ R.pairs) (h : s.leqAny e = false) : e.r.pos < s.r.pos ∧ e.q.pos < s.q.pos := by
+  obtain ⟨h1, h2, h3, h4⟩ := leqAny_false h
+  obtain ⟨g1, g2⟩ := hS e he s hs
+  have n1 : e.r.pos ≠ s.r.pos := fun hh => h4 (g1 hh).symm
+  have n2 : e.q.pos ≠ s.q.pos := fun hh => h3 (g2 hh).symm
+  omega
+
+theorem left_bound {L : Seg} {e : Pr} (hL : LeftOK L) (he : L.items.getLast? = some (.pair e)) :
+    e ∈ L.pairs ∧ ∀ p ∈ L.pairs, p.r.pos ≤ e.r.pos ∧ p.q.pos ≤ e.q.pos := by
+  obtain ⟨_, hp, _⟩ := last_pair he
+  refine ⟨List.mem_of_getLast? hp, ?_⟩
+  intro p hpm
+  rcases pairs_le_last hL.asc hp p hpm with rfl | h
+  · omega
+  · omega
+
+theorem right_bound {R : Seg} {c : Pr} {tl : List APos} (hR : RightOK R)
+    (hc : R.items = .pair c :: tl) :
+    c ∈ R.pairs ∧ ∀ p ∈ R.pairs, c.r.pos ≤ p.r.pos ∧ c.q.pos ≤ p.q.pos := by
+  obtain ⟨_, hp, _⟩ := first_pair hc
+  refine ⟨List.mem_of_head? hp, ?_⟩
+  intro p hpm
+  rcases pairs_ge_first hR.asc hp p hpm with rfl | h
+  · omega
+  · omega
+
+end Coma.Proofs.Conflict
+
+namespace Coma.Proofs
+open Coma Coma.Spec Coma.Proofs.Conflict
 
 theorem resolve_sublist (P : Params) (L R l r : Seg) (b : Branch) (h : resolvePairB P L R = .ok (l, r, b)) :
     l.items.Sublist L.items ∧ r.items.Sublist R.items ∧ l.peak = L.peak ∧ r.peak = R.peak := by
-  sorry
+  rcases resolvePairB_cases h with ⟨_, rfl, rfl, _⟩ | ⟨_, _, rfl, rfl, _⟩ |
+    ⟨_, _, cs, ce, Lc, Rc, _, _, _, _, ⟨_, rfl, rfl⟩ | ⟨_, rfl, rfl⟩ | ⟨_, li, ri, rfl, rfl⟩⟩
+  all_goals
+    first
+    | exact ⟨List.Sublist.refl _, List.Sublist.refl _, rfl, rfl⟩
+    | exact ⟨List.filter_sublist, List.Sublist.refl _, rfl, rfl⟩
+    | exact ⟨List.Sublist.refl _, List.filter_sublist, rfl, rfl⟩
+    | exact ⟨List.filter_sublist, List.filter_sublist, rfl, rfl⟩
 
 theorem resolve_subrun (P : Params) (L R l r : Seg) (b : Branch) (h : resolvePairB P L R = .ok (l, r, b))
     (hL : LeftOK L) (hR : RightOK R) :
     l.items <+: L.items ∧ r.items <:+ R.items := by
-  sorry
+  rcases resolve_shape h hL hR with ⟨_, rfl, rfl, _⟩ | ⟨_, _, rfl, rfl, _⟩ |
+    ⟨cs, e, Lc, Rc, t, _, _, _, hLc, hRc, _, hT⟩
+  · exact ⟨List.prefix_refl _, List.suffix_refl _⟩
+  · exact ⟨List.prefix_refl _, List.suffix_refl _⟩
+  · have hLs : L.items = L.items.takeWhile (fun p => p.lessOnBoth cs.toPr) ++ Lc.items := by
+      rw [hLc, List.takeWhile_append_dropWhile]
+    have hRs : R.items = Rc.items ++
+        (t ++ R.items.dropWhile (fun p => !p.isPair || p.leqAny e)) := by
+      rw [← List.append_assoc, ← hRc, List.takeWhile_append_dropWhile]
+    rcases hT with ⟨_, hl, rfl⟩ | ⟨_, rfl, hr⟩ | ⟨_, li, ri, hl, hr⟩
+    · exact ⟨hl ▸ List.takeWhile_prefix _, List.suffix_refl _⟩
+    · refine ⟨List.prefix_refl _, ?_⟩
+      rw [hr]; exact ⟨Rc.items, hRs.symm⟩
+    · constructor
+      · rw [hl]
+        refine ⟨Lc.items.drop li, ?_⟩
+        rw [List.append_assoc, List.take_append_drop]; exact hLs.symm
+      · rw [hr]
+        refine ⟨Rc.items.take ri, ?_⟩
+        rw [← List.append_assoc, List.take_append_drop]; exact hRs.symm
 
 theorem resolve_keeps_outside (P : Params) (L R l r : Seg) (b : Branch) (h : resolvePairB P L R = .ok (l, r, b))
     (hL : LeftOK L) (hR : RightOK R) (cs ce : Pr)
     (hcs : R.pairs.head? = some cs) (hce : L.pairs.getLast? = some ce) :
     (L.items.takeWhile (fun p => p.lessOnBoth cs)) <+: l.items ∧
     (R.items.dropWhile (fun p => !p.isPair || p.leqAny ce)) <:+ r.items := by
-  sorry
+  rcases resolve_shape h hL hR with ⟨_, rfl, rfl, _⟩ | ⟨_, _, rfl, rfl, _⟩ |
+    ⟨cs', e, Lc, Rc, t, _, he, hRsh, hLc, hRc, _, hT⟩
+  · exact ⟨List.takeWhile_prefix _, List.dropWhile_suffix _⟩
+  · exact ⟨List.takeWhile_prefix _, List.dropWhile_suffix _⟩
+  · -- identify the two given pairs with the ones the resolver used
+    obtain ⟨_, hp, _⟩ := last_pair he
+    rw [hp] at hce
+    injection hce with hce
+    subst hce
+    have hcs' : cs' = .pr cs := by
+      rcases hRsh with ⟨h0, _⟩ | ⟨c, tl, hc, rfl⟩
+      · rw [pairs_nil_of_items_nil h0] at hcs; cases hcs
+      · obtain ⟨_, hp', _⟩ := first_pair hc
+        rw [hp'] at hcs
+        injection hcs with hcs
+        rw [hcs]
+    subst hcs'
+    rcases hT with ⟨_, hl, rfl⟩ | ⟨_, rfl, hr⟩ | ⟨_, li, ri, hl, hr⟩
+    · exact ⟨hl ▸ List.prefix_refl _, List.dropWhile_suffix _⟩
+    · refine ⟨List.takeWhile_prefix _, ?_⟩
+      rw [hr]; exact List.suffix_append _ _
+    · constructor
+      · rw [hl]; exact List.prefix_append _ _
+      · rw [hr]
+        exact List.suffix_append_of_suffix (List.suffix_append _ _)
 
 theorem resolve_separated (P : Params) (L R l r : Seg) (b : Branch)
     (h : resolvePairB P L R = .ok (l, r, b)) (hL : LeftOK L) (hR : RightOK R) (hS : StrictCoords L R)
     (hb : b ≠ Branch.interior) : Separated l r := by
-  sorry
+  rcases resolve_shape h hL hR with ⟨h0, hl, hr, _⟩ | ⟨hne, hov, hl, hr, _⟩ |
+    ⟨cs, e, Lc, Rc, t, hst, he, hRsh, hLc, hRc, htu, hT⟩
+  · -- emptyLeft
+    subst l; subst r
+    intro p hp
+    rw [pairs_nil_of_items_nil h0] at hp; cases hp
+  · -- noOverlap
+    subst l; subst r
+    intro p hp p' hp'
+    by_cases hR0 : R.items = []
+    · rw [pairs_nil_of_items_nil hR0] at hp'; cases hp'
+    · obtain ⟨c, tl, hc⟩ := rightOK_first hR hR0
+      obtain ⟨e, he⟩ := leftOK_last hL hne
+      obtain ⟨_, _, hend⟩ := last_pair he
+      obtain ⟨_, _, hstart⟩ := first_pair hc
+      have hno : c.leqAny e = false := noOverlap_leqAny hne hov hend hstart
+      obtain ⟨heL, hle⟩ := left_bound hL he
+      obtain ⟨hcR, hge⟩ := right_bound hR hc
+      have := strict_of_not_leqAny hS heL hcR hno
+      have := hle p hp
+      have := hge p' hp'
+      omega
+  · rcases hT with ⟨_, hl, hr⟩ | ⟨_, hl, hr⟩ | ⟨hi, _⟩
+    · -- index0 / dropLeft : what is left of `L` is below `cs` on both maps
+      subst r
+      intro p hp p' hp'
+      rcases hRsh with ⟨h0, _⟩ | ⟨c, tl, hc, rfl⟩
+      · rw [pairs_nil_of_items_nil h0] at hp'; cases hp'
+      · have hm : APos.pair p ∈ l.items := mem_pairs.mp hp
+        rw [hl] at hm
+        have hlt : p.lessOnBoth c = true :=
+          mem_takeWhile_imp (p := fun (a : APos) => a.lessOnBoth (SP.pr c).toPr) hm
+        have hlt := lessOnBoth_iff.mp hlt
+        obtain ⟨_, hge⟩ := right_bound hR hc
+        have := hge p' hp'
+        omega
+    · -- indexN / dropRight : what is left of `R` starts at a pair above `e` on both maps
+      subst l
+      intro p hp p' hp'
+      have hrp : r.pairs = pairsOf (R.items.dropWhile (fun p => !p.isPair || p.leqAny e)) := by
+        rw [pairs_eq_pairsOf, hr, pairsOf_append, pairsOf_eq_nil htu, List.nil_append]
+      rw [hrp] at hp'
+      cases hdw : R.items.dropWhile (fun p => !p.isPair || p.leqAny e) with
+      | nil => rw [hdw] at hp'; cases hp'
+      | cons s dw =>
+        rw [hdw] at hp'
+        have hs : (!s.isPair || s.leqAny e) = false :=
+          dropWhile_eq_cons (p := fun (a : APos) => !a.isPair || a.leqAny e) hdw
+        have hsplit : R.items = R.items.takeWhile (fun p => !p.isPair || p.leqAny e) ++ s :: dw := by
+          rw [← hdw, List.takeWhile_append_dropWhile]
+        cases s with
+        | uref _ => simp [APos.isPair] at hs
+        | uqry _ _ => simp [APos.isPair] at hs
+        | pair s' =>
+          have hs' : s'.leqAny e = false := by simpa [APos.isPair, APos.leqAny] using hs
+          have hsR : s' ∈ R.pairs := by
+            apply mem_pairs.mpr
+            rw [hsplit]; simp
+          obtain ⟨heL, hle⟩ := left_bound hL he
+          have hstrict := strict_of_not_leqAny hS heL hsR hs'
+          have hasc : (pairsOf R.items).Pairwise
+              (fun a b => a.r.pos < b.r.pos ∧ a.q.pos < b.q.pos) := hR.asc
+          rw [hsplit, pairsOf_append] at hasc
+          have hasc2 := (List.pairwise_append.mp hasc).2.1
+          have hcons : pairsOf (APos.pair s' :: dw) = s' :: pairsOf dw := rfl
+          rw [hcons] at hasc2 hp'
+          have := hle p hp
+          rcases List.mem_cons.mp hp' with rfl | hp'
+          · omega
+          · have := List.rel_of_pairwise_cons hasc2 hp'
+            omega
+    · exact absurd hi hb
 
 /-- one step never raises on a LeftOK left and RightOK right segment -/
 theorem resolve_total (P : Params) (L R : Seg) (hL : LeftOK L) (hR : RightOK R) :
     ∃ l r b, resolvePairB P L R = .ok (l, r, b) := by
-  sorry
+  apply resolvePairB_ok_of
+  by_cases hne : L.items = []
+  · exact Or.inl hne
+  · right
+    obtain ⟨e, he⟩ := leftOK_last hL hne
+    obtain ⟨_, hpe, hend⟩ := last_pair he
+    -- the left segment has a pair, so its start position exists
+    have hss : ∃ ss, L.startPos = .ok ss := by
+      unfold Seg.startPos
+      rw [if_neg (by simpa using hne)]
+      cases hp : L.pairs with
+      | nil => rw [hp] at hpe; cases hpe
+      | cons a _ => exact ⟨_, rfl⟩
+    obtain ⟨ss, hss⟩ := hss
+    by_cases hR0 : R.items = []
+    · obtain ⟨ov, hov⟩ := endOverlaps_ok hss hend (startPos_empty hR0) (endPos_empty hR0)
+      refine ⟨ov, hov, fun _ => ⟨.null, .pr e, _, _, startPos_empty hR0, hend,
+        slice_left hL.asc he .null, slice_empty hR0 _ _⟩⟩
+    · obtain ⟨c, tl, hc⟩ := rightOK_first hR hR0
+      obtain ⟨_, hpc, hstart⟩ := first_pair hc
+      have hoe : ∃ oe, R.endPos = .ok oe := by
+        unfold Seg.endPos
+        rw [if_neg (by simpa using hR0)]
+        cases hp : R.pairs.getLast? with
+        | none =>
+          rw [List.getLast?_eq_none_iff] at hp
+          rw [hp] at hpc; cases hpc
+        | some a => exact ⟨_, rfl⟩
+      obtain ⟨oe, hoe⟩ := hoe
+      obtain ⟨ov, hov⟩ := endOverlaps_ok hss hend hstart hoe
+      obtain ⟨Rc, t, hRc, _, _⟩ := slice_right hc (.pr e)
+      exact ⟨ov, hov, fun _ => ⟨.pr c, .pr e, _, Rc, hstart, hend, slice_left hL.asc he _, hRc⟩⟩
 
 theorem interior_counterexample :
     ∃ l r, resolvePairB ⟨10, 2, -1, 1, 15, 5⟩
         ⟨0, [.pair ⟨⟨3, 7⟩, ⟨2, 7⟩, 0, 0⟩, .pair ⟨⟨4, 8⟩, ⟨1, 8⟩, 0, 0⟩]⟩
         ⟨9, [.pair ⟨⟨4, 8⟩, ⟨3, 0⟩, 1, 0⟩, .pair ⟨⟨5, 16⟩, ⟨2, 7⟩, 0, 0⟩]⟩ = .ok (l, r, Branch.interior) ∧
       sharesLabel l r = true := by
-  sorry
+  refine ⟨⟨0, [.pair ⟨⟨3, 7⟩, ⟨2, 7⟩, 0, 0⟩]⟩, ⟨9, [.pair ⟨⟨5, 16⟩, ⟨2, 7⟩, 0, 0⟩]⟩, ?_, ?_⟩
+  · apply eq_ok_of_toOption
+    decide +kernel
+  · decide +kernel
 
 end Coma.Proofs
